@@ -151,6 +151,12 @@ def run(tier, seed):
                 pass
             evals += 1
             distinct.add((cn, "refuse", key))
+    from . import axioms_native
+
+    n_ax, bad_ax = axioms_native.check_ffi_axioms()
+    evals += n_ax
+    for bd in bad_ax:
+        bad("axiom:" + bd["axiom"], **{k: str(v) for k, v in bd.items() if k != "axiom"})
     if not samples:
         samples.append({"kernels": sorted(kd)[:8], "contexts": ["serial", "openmp(2)"]})
     return {
